@@ -834,7 +834,7 @@ theorem SecPair.fields {c : Cls} {tr : List Trans} {D : Bytes} {K : StreamKind} 
 
 theorem getString_obs (b b' : SecBuf) (h : secObs b = secObs b') (x : BitVec 32) : getString b x = getString b' x := by
   simp only [secObs, SecObs.mk.injEq] at h
-  unfold getString
+  rw [LoadTie.getString_hand, LoadTie.getString_hand]
   rw [h.2.2.2.2.2.2.2.2.2.2.2.2.1, h.2.2.2.2.2.2.2.1]
 
 /-! #### pairwise-related lists -/
@@ -1008,7 +1008,7 @@ theorem resolveNames_sim (c : Cls) (tr : List Trans) (D : Bytes) (K : StreamKind
       simp only [hdrFields, Prod.mk.injEq] at this
       exact this.2.2.1
     have hga : getString sL a.nameOff = getString sE b.nameOff := by rw [hs, hn]
-    simp only [resolveNames, load_sections_name_found, bind, Except.bind] at hr ⊢
+    simp only [resolveNames, bind, Except.bind] at hr ⊢
     rw [hga]
     cases hg : getString sE b.nameOff with
     | error f => rw [hg] at hr; exact absurd hr (by simp)
